@@ -24,6 +24,7 @@ import (
 	"go/constant"
 	"go/importer"
 	"go/parser"
+	"go/printer"
 	"go/token"
 	"go/types"
 	"os"
@@ -41,8 +42,10 @@ type glGroup struct {
 	id      string   // generator id, e.g. "golitec04"
 	out     string   // file name, e.g. "GoLiteC04.v"
 	pkgDir  string   // directory relative to the repository root
+	prefix  string   // prefix of the names in the generated program (for a second package in the same file)
 	funcs   []glFunc // functions to translate
 	externs []string // qualified names (pkg.Func) of calls that become SCallExt oracles
+	more    []glGroup // further packages translated into the same file (their pkgDir/prefix/funcs/externs)
 }
 
 func registerGoLite(g glGroup) {
@@ -196,9 +199,34 @@ func (t *glTr) fail(n ast.Node, format string, a ...interface{}) {
 }
 
 func glTranslateGroup(repo string, g glGroup) (content string, err error) {
+	var b strings.Builder
+	b.WriteString("(* GENERATED by /verif/gen/golite.go from /repo's working tree on every check. Do not edit.\n")
+	dirs := []string{g.pkgDir}
+	for _, m := range g.more {
+		dirs = append(dirs, m.pkgDir)
+	}
+	fmt.Fprintf(&b, "   Packages %s: functions translated into the GoLite fragment (coq/GoLite.v). *)\n", strings.Join(dirs, ", "))
+	b.WriteString("From Coq Require Import List ZArith String.\nRequire Import YF.GoLite.\nImport ListNotations.\nLocal Open Scope string_scope.\nLocal Open Scope Z_scope.\n\n")
+	var names, lemmas []string
+	parts := append([]glGroup{g}, g.more...)
+	for _, part := range parts {
+		defs, ns, ls, err := glTranslatePart(repo, part)
+		if err != nil {
+			return "", err
+		}
+		b.WriteString(defs)
+		names = append(names, ns...)
+		lemmas = append(lemmas, ls...)
+	}
+	fmt.Fprintf(&b, "Definition prog : program :=\n  [%s].\n\n", strings.Join(names, ";\n   "))
+	b.WriteString(strings.Join(lemmas, ""))
+	return b.String(), nil
+}
+
+func glTranslatePart(repo string, g glGroup) (defs string, names, lemmas []string, err error) {
 	p, err := glLoad(repo, g.pkgDir)
 	if err != nil {
-		return "", err
+		return "", nil, nil, err
 	}
 	t := &glTr{p: p, g: g, byObj: map[types.Object]*glFn{}, externs: map[string]bool{}}
 	for _, e := range g.externs {
@@ -216,7 +244,7 @@ func glTranslateGroup(repo string, g glGroup) (content string, err error) {
 	for _, spec := range g.funcs {
 		fd := p.findFunc(spec.recv, spec.name)
 		if fd == nil {
-			return "", fmt.Errorf("%s: function %s.%s not found", g.pkgDir, spec.recv, spec.name)
+			return "", nil, nil, fmt.Errorf("%s: function %s.%s not found", g.pkgDir, spec.recv, spec.name)
 		}
 		if spec.alias == "" {
 			spec.alias = spec.name
@@ -224,6 +252,7 @@ func glTranslateGroup(repo string, g glGroup) (content string, err error) {
 				spec.alias = spec.recv + "." + spec.name
 			}
 		}
+		spec.alias = g.prefix + spec.alias
 		fn := &glFn{spec: spec, decl: fd, obj: p.info.Defs[fd.Name], funcPars: map[string]bool{}, declared: map[string]types.Object{}}
 		t.collectParams(fn)
 		t.fns = append(t.fns, fn)
@@ -245,23 +274,16 @@ func glTranslateGroup(repo string, g glGroup) (content string, err error) {
 		}
 	}
 	var b strings.Builder
-	b.WriteString("(* GENERATED by /verif/gen/golite.go from /repo's working tree on every check. Do not edit.\n")
-	fmt.Fprintf(&b, "   Package %s: functions translated into the GoLite fragment (coq/GoLite.v). *)\n", g.pkgDir)
-	b.WriteString("From Coq Require Import List ZArith String.\nRequire Import YF.GoLite.\nImport ListNotations.\nLocal Open Scope string_scope.\nLocal Open Scope Z_scope.\n\n")
-	var names []string
 	for _, fn := range t.fns {
 		body := t.funcBody(fn)
 		cname := "fn_" + glIdent(fn.spec.alias)
 		pos := p.fset.Position(fn.decl.Pos())
-		fmt.Fprintf(&b, "(* %s:%s%s — out-parameters: %v *)\n", filepath.Base(pos.Filename), map[bool]string{true: "(" + fn.spec.recv + ").", false: ""}[fn.spec.recv != ""], fn.spec.name, t.outNames(fn))
+		fmt.Fprintf(&b, "(* %s/%s:%s%s — out-parameters: %v *)\n", g.pkgDir, filepath.Base(pos.Filename), map[bool]string{true: "(" + fn.spec.recv + ").", false: ""}[fn.spec.recv != ""], fn.spec.name, t.outNames(fn))
 		fmt.Fprintf(&b, "Definition %s : fdecl :=\n  {| f_params := [%s];\n     f_body :=\n%s |}.\n\n", cname, glStrList(fn.params), glIndent(body, 7))
 		names = append(names, fmt.Sprintf("(%s, %s)", glStr(fn.spec.alias), cname))
+		lemmas = append(lemmas, fmt.Sprintf("Lemma prog_%s : plookup %s prog = Some fn_%s.\nProof. reflexivity. Qed.\n", glIdent(fn.spec.alias), glStr(fn.spec.alias), glIdent(fn.spec.alias)))
 	}
-	fmt.Fprintf(&b, "Definition prog : program :=\n  [%s].\n\n", strings.Join(names, ";\n   "))
-	for _, fn := range t.fns {
-		fmt.Fprintf(&b, "Lemma prog_%s : plookup %s prog = Some fn_%s.\nProof. reflexivity. Qed.\n", glIdent(fn.spec.alias), glStr(fn.spec.alias), glIdent(fn.spec.alias))
-	}
-	return b.String(), nil
+	return b.String(), names, lemmas, nil
 }
 
 func (t *glTr) outNames(fn *glFn) []string {
@@ -273,7 +295,7 @@ func (t *glTr) outNames(fn *glFn) []string {
 }
 
 func glIdent(s string) string {
-	return strings.NewReplacer(".", "_", "*", "", "[", "_", "]", "_").Replace(s)
+	return strings.NewReplacer(".", "_", "*", "", "[", "_", "]", "_", "/", "_", "-", "_").Replace(s)
 }
 func glStr(s string) string { return "\"" + strings.ReplaceAll(s, "\"", "\"\"") + "\"" }
 func glStrList(l []string) string {
@@ -346,6 +368,26 @@ func (t *glTr) collectParams(fn *glFn) {
 			}
 		}
 	}
+}
+
+func (t *glTr) pkgVarHasNoInit(v *types.Var) bool {
+	for _, f := range t.p.files {
+		for _, d := range f.Decls {
+			gd, ok := d.(*ast.GenDecl)
+			if !ok || gd.Tok != token.VAR {
+				continue
+			}
+			for _, sp := range gd.Specs {
+				vs := sp.(*ast.ValueSpec)
+				for _, n := range vs.Names {
+					if t.p.info.Defs[n] == v {
+						return len(vs.Values) == 0
+					}
+				}
+			}
+		}
+	}
+	return false
 }
 
 // rootObj: the variable an lvalue-ish expression is rooted at (x, x[i], x[a:b], x.f, *x)
@@ -631,6 +673,10 @@ func (t *glTr) expr(c *glCtx, e ast.Expr) string {
 				if isErrorType(v.Type()) {
 					return "EErr " + glStr(v.Name())
 				}
+				if _, isArr := v.Type().Underlying().(*types.Array); isArr && isIntSeq(v.Type()) && t.pkgVarHasNoInit(v) {
+					// `var X [N]byte` never initialised: its zero value (assignments to it elsewhere are not tracked)
+					return t.zero(e, v.Type())
+				}
 				t.fail(e, "package-level variable %s", v.Name())
 			}
 			return "EVar " + glStr(x.Name)
@@ -818,7 +864,8 @@ func (t *glTr) callExpr(c *glCtx, x *ast.CallExpr) string {
 			return fmt.Sprintf("EBuiltin %s [%s; %s]", glStr(name), arg(0), arg(1))
 		}
 	case "make":
-		if len(x.Args) == 2 && isIntSeq(t.p.info.TypeOf(x.Args[0])) {
+		// make([]T, n) and make([]T, n, c): capacity is not modelled (the semantics identifies it with the length)
+		if (len(x.Args) == 2 || len(x.Args) == 3) && isIntSeq(t.p.info.TypeOf(x.Args[0])) {
 			return fmt.Sprintf("EBuiltin \"make\" [%s]", arg(1))
 		}
 	case "append":
@@ -1044,6 +1091,21 @@ func (t *glTr) stmt(fn *glFn, s ast.Stmt) string {
 		switch {
 		case name == "panic":
 			return "SPanic"
+		case name == "sort.Slice":
+			// sort.Slice(x, func(i, j int) bool { return <cmp> }) on an integer slice variable: an oracle named after
+			// the comparison text (a changed comparator changes the oracle's name, hence the theorem's hypothesis)
+			id, ok := call.Args[0].(*ast.Ident)
+			fl, ok2 := call.Args[1].(*ast.FuncLit)
+			if !ok || !ok2 || !isIntSeq(t.p.info.TypeOf(call.Args[0])) || len(fl.Body.List) != 1 {
+				t.fail(s, "sort.Slice shape")
+			}
+			ret, ok := fl.Body.List[0].(*ast.ReturnStmt)
+			if !ok || len(ret.Results) != 1 {
+				t.fail(s, "sort.Slice comparator shape")
+			}
+			var sb strings.Builder
+			printer.Fprint(&sb, t.p.fset, ret.Results[0])
+			return fmt.Sprintf("SCallExt [LVar %s] %s [EVar %s]", glStr(id.Name), glStr("sort.Slice: "+sb.String()), glStr(id.Name))
 		case name == "copy":
 			return t.withPre(c, fmt.Sprintf("SCopy (%s) (%s)", t.lvalOf(c, call.Args[0]), t.expr(c, call.Args[1])))
 		case strings.HasPrefix(name, "binary.LittleEndian.PutUint"), strings.HasPrefix(name, "binary.BigEndian.PutUint"):
